@@ -5,10 +5,10 @@ package main
 // and routes them to the Run they belong to.
 
 import (
-	"runtime"
 	"encoding/json"
 	"fmt"
 	"io"
+	"runtime"
 	"sort"
 	"sync"
 	"sync/atomic"
